@@ -23,9 +23,16 @@ META = {
 PROPS = "theories/Conc/Props_C06.v"
 MODULE = "Conc.Props_C06"
 CTL_TID, FLUSH_TID = 900, 1000
-IGNORED = {"enter", "leader", "core_locked", "iter_next", "load", "store", "stole", "batched", "work", "gave", "clear",
-           "lru_lookup", "lru_insert", "lru_evict", "link_wait", "link_wake", "notify_available", "w_unlocked",
-           "w_done", "snap_ts"}
+# The event kinds the conversion REQUIRES (everything else the recorders emit - the log's coalescing queue,
+# the LRU cache, gate / pre-notify events of sync42, gate points added to the kvs later - is ignored):
+#   harness:     inv ret got skv skb mgv sturn
+#   kvs hooks:   w_assign trigger w_logged w_insert w_dropped w_publish snap snap_ts r_mem r_imm r_tree
+#                f_rollover f_head f_ingested f_clear f_exit
+#   wait list:   link is_head unlink notify_head        (only in the phases where the kvs wait list is used)
+CLIENT_USED = {"inv", "ret", "got", "skv", "skb", "mgv", "sturn", "w_assign", "trigger", "w_logged", "w_insert", "w_dropped",
+               "w_publish", "snap", "snap_ts", "r_mem", "r_imm", "r_tree", "link", "is_head", "unlink", "notify_head"}
+FLUSHER_USED = {"f_rollover", "f_head", "f_ingested", "f_clear", "f_exit", "link", "is_head", "unlink", "notify_head"}
+IGNORED = {"snap_ts"}
 
 OPTION_SETS = [
     ("roomy", ["--memtable-size-bytes", "100000000"]),
@@ -439,6 +446,8 @@ class Convert:
                 self.bad(i, "write returned in phase " + ph)
             self.phase[tid] = "idle"
             return
+        if what not in CLIENT_USED:
+            return
         if what in IGNORED:
             if what == "snap_ts" and tid in self.cur:
                 self.cur[tid]["ts"] = a
@@ -562,6 +571,8 @@ class Convert:
             self.bad(i, "unexpected in phase " + ph)
 
     def flusher(self, i, what, a, b, c):
+        if what not in FLUSHER_USED:
+            return
         fl = self.fl
         if what == "f_rollover":
             if fl != "idle":
